@@ -22,6 +22,7 @@ from ..engine import Analysis, is_call_to, is_suspension, short, where_fn, teste
 from ..model import AnalysisError
 from ..types import Callee, Frame
 from .. import rules
+from . import _scope
 
 PROP = 'C15'
 LOOP = 'usim._core.loop.Loop'
@@ -67,6 +68,10 @@ def run(check, an: Analysis):
     check.rule('H', 'the kernel only handles StopIteration (ActivityLeak iff a value was '
                     'returned)')
     check.rule('O', 'roots are queued at `start` in argument order')
+    check.rule('T', '`till` is reached: the deadline `until(time == till)` is notified at once '
+                    'exactly when it already holds (also for start == till), and a root '
+                    'activity failing while the deadline closes the simulation is still '
+                    'reported (rules shared with C07 and C05)')
     an.cls(HANDLER)
     # ---- X ------------------------------------------------------------------
     handler_cls = an.cls(HANDLER)
@@ -294,6 +299,10 @@ def run(check, an: Analysis):
                    where_fn(init.fn), 'for coroutine in coroutines: push(start, '
                    'Activation(coroutine)) into the loop\'s own new wait queue, with '
                    'time = start (%d pushes on %d paths)' % (n_push, n_paths))
+    # ---- T ------------------------------------------------------------------
+    from . import c07
+    c07.check_immediacy(check, an, 'T')
+    _scope.check_child_failure_recorded(check, an, 'T')
     check.stats.update(an.stats())
 
 
